@@ -13,7 +13,7 @@ from props import c04, c05
 
 ID = "C13"
 LEVEL = "exploration"
-BUDGET = {"quick": (8, 30), "thorough": (16, 500)}
+BUDGET = {"quick": (8, 30), "thorough": (16, 800)}
 K = 2
 RULE = ("Model-based history testing: a generated OCP and a generated sequence (3..12 steps) over set_value, set_initial, subject_to, clear_constraints, add_objective, method (class/N/M/grid change), "
         "solver (options change), set_T, set_t0, sample, value, jacobian, sub-stage sample and limited solves is applied to the real OCP and mirrored on a JSON model spec. After every query/solve "
